@@ -124,9 +124,9 @@ theorem firstLiveAfter_cronZone (tod : List Int) (hok : TodOk tod) (off s0 t : I
       simp [this]
 
 /-- The loop of `Queries` and the loop of `cronTicker.Start` walk the same chain of `Next` answers: the historical
-ticks are the live ticks up to the first one beyond the span (or whose query would end after `now`) — for ANY `next`
-that never ends. -/
-theorem histTicks_eq_live_takeWhile (next : Int → Option Int) (hnext : ∀ t, (next t).isSome = true)
+ticks are the live ticks up to the first one beyond the span (or whose query would end after `now`) — for ANY `next`,
+also one that ends (both loops stop at the zero time). -/
+theorem histTicks_eq_live_takeWhile (next : Int → Option Int)
     (stop now offset : Int) : ∀ (n : Nat) (s0 : Int),
     histTicks next stop now offset n s0 =
       (cronLiveTicks next n s0).takeWhile (fun c => decide (c ≤ stop) && decide (c - offset ≤ now)) := by
@@ -137,7 +137,7 @@ theorem histTicks_eq_live_takeWhile (next : Int → Option Int) (hnext : ∀ t, 
     intro s0
     unfold histTicks cronLiveTicks
     cases h : next s0 with
-    | none => have := hnext s0; simp [h] at this
+    | none => simp
     | some c =>
       simp only
       by_cases h1 : c > stop
